@@ -302,13 +302,10 @@ def eigen(X, P, NSIG=None, method='music', threshold=None, NFFT=default_NFFT,
 
     PSD = 1./PSD
 
-    # for some reasons, we need to rearrange the output. this is related to
-    # the way U and V are order in the routine svd
-    nby2 = int(NFFT/2)
-
-    #return PSD, S
-
-    newpsd = np.append(PSD[nby2:0:-1], PSD[nby2*2-1:nby2-1:-1])
+    # The FFT of the (non conjugated) right singular vectors gives the
+    # pseudo spectrum of frequency -k*df in bin k. The output is returned in
+    # the centerdc order (increasing frequencies, DC in the middle).
+    newpsd = np.fft.fftshift(np.roll(PSD[::-1], 1))
     return newpsd, S
 
 
